@@ -1,4 +1,189 @@
 import Model.Base.Proto
+import Model.Storage.Query
+import Model.Storage.Fmt
+import Model.Analysis.Quote
+import Model.Spec.Storage
 
-/-- stub: replaced when the property's driver is built -/
-def main : IO Unit := pure ()
+namespace Driver.C19
+open Proto Storage.Query Storage.Fmt
+
+/- Protocol (see harness/c19/main.go):
+   case <id> kind=hist ups=<day~user~name.content+…;…> qs=<hexlist> ls=<q:limit,…>
+   obs  <id> up<i> ok=1 uid=<hex> parts=<hexlist> | ok=0
+   obs  <id> uploads n=<count> err=false
+   obs  <id> q<j> sql=<text/text@args | !kind> db=<records|!err> cl=<records|!err>
+   obs  <id> l<j> db=<id:count,…> cl=…
+   spec <id> q<j> res=<records in the property's vocabulary>      spec <id> l<j> res=<id:count,…>
+   case <id> kind=sw q=<hex> add=<hex>
+   obs  <id> words=<hexlist> atq=<hex> back=<hexlist>             spec <id> first=<hex> n=1|2 -/
+
+structure UploadIn where
+  day : Bytes
+  user : Bytes
+  files : List FileIn
+
+def hexD (s : String) : Bytes := (Bytes.ofHex s).getD []
+
+def parseUps (s : String) : List UploadIn :=
+  (s.splitOn ";").filterMap fun u =>
+    match u.splitOn "~" with
+    | [d, usr, fs] =>
+      some { day := hexD d, user := hexD usr,
+             files := (fs.splitOn "+").filterMap fun f =>
+               match f.splitOn "." with
+               | [n, c] => some { name := hexD n, content := hexD c }
+               | _ => none }
+    | _ => none
+
+def parseLs (s : String) : List (Bytes × Int) :=
+  if s == "-" || s == "" then [] else
+  (s.splitOn ",").filterMap fun l =>
+    match l.splitOn ":" with
+    | [q, n] => some (hexD q, n.toInt?.getD 0)
+    | _ => none
+
+def sortStrings (l : List String) : List String := (l.toArray.qsort (· < ·)).toList
+
+def joinSorted (l : List String) : String :=
+  if l.isEmpty then "-" else ",".intercalate (sortStrings l)
+
+def labelsStr (l : Labels) : String :=
+  ";".intercalate (l.map fun kv => kv.1.toHex ++ ":" ++ kv.2.toHex)
+
+def recStr (r : Result) : String :=
+  "L" ++ labelsStr r.labels ++ "|N" ++ labelsStr r.nameL ++ "|" ++ r.content.toHex
+
+def specRecOf (labels : List (Bytes × Bytes)) (content : Bytes) : String :=
+  ";".intercalate (sortStrings (labels.map fun kv => kv.1.toHex ++ ":" ++ kv.2.toHex)) ++ "|" ++ content.toHex
+
+def errTag : QErr → String
+  | .missingOp => "!missingop"
+  | .invalidKey => "!invalidkey"
+  | .eof => "!eof"
+  | .missingValue => "!missingvalue"
+
+def showRows (rows : List (Bytes × Nat)) : String :=
+  if rows.isEmpty then "-" else ",".intercalate (rows.map fun r => r.1.toHex ++ ":" ++ toString r.2)
+
+/-- results of a query path as the Go API reports them: an unsatisfiable query is an empty result -/
+def showResults (f : Result → String) : Except QErr (List Result) → String
+  | .ok rs => joinSorted (rs.map f)
+  | .error .eof => "-"
+  | .error _ => "!err"
+
+def showListing : Except QErr (List (Bytes × Nat)) → String
+  | .ok rows => showRows rows
+  | .error .eof => "-"
+  | .error _ => "!err"
+
+/-- server labels in the property's vocabulary (specification side) -/
+def specServerLabels (id : Bytes) (i : Nat) (user fname : Bytes) : Spec.Storage.KV :=
+  let base := (fname.reverse.takeWhile (fun c => c != 47 && c != 92)).reverse
+  [(Bytes.ofString "upload", id), (Bytes.ofString "upload-part", id ++ [47] ++ Bytes.ofString (toString i)),
+   (Bytes.ofString "upload-time", Bytes.ofString "T")]
+  ++ (if base.isEmpty then [] else [(Bytes.ofString "upload-file", base)])
+  ++ (if user.isEmpty then [] else [(Bytes.ofString "by", user)])
+
+def badValue (v : Bytes) : Bool :=
+  (match v with | c :: _ => c == 32 || c == 9 | [] => false) || v.getLast? == some 13
+
+def handleHist (l : Line) : IO Unit := do
+  let ups := parseUps (l.getD "ups")
+  let qs := (l.hexList? "qs").getD []
+  let ls := parseLs (l.getD "ls" "-")
+  let id := l.id
+  -- uploads: model state, and the specification's view of what is stored
+  let mut db : DB := {}
+  let mut stored : List (Bytes × List Spec.Storage.Line) := []
+  let mut flushed := false
+  let mut i := 0
+  for u in ups do
+    let before := db.labels.length
+    let (db', uid, ok) := processUpload db u.day u.user u.files
+    db := db'
+    if ok then
+      let parts := (List.range u.files.length).map fun k => uid ++ [47] ++ natToDec k
+      IO.println s!"obs {id} up{i} ok=1 uid={uid.toHex} parts={showHexList parts}"
+      let lines := (u.files.zipIdx).flatMap fun (f, k) =>
+        Spec.Storage.fileLines (specServerLabels uid k u.user f.name) f.content
+      stored := stored ++ [(uid, lines)]
+      if db.labels.length - before > 247 then flushed := true
+    else
+      IO.println s!"obs {id} up{i} ok=0"
+    i := i + 1
+  IO.println s!"obs {id} uploads n={db.uploads.length} err=false"
+  let allLines := stored.flatMap (·.2)
+  let n7 := allLines.any fun ln => ln.labels.any (fun kv => badValue kv.2) || ln.content.getLast? == some 13
+  let n8 := allLines.any fun ln => ln.labels.any (fun kv => kv.2.isEmpty)
+  let kfOf (differs : Bool) : String :=
+    if !differs then "" else
+    let tags := (if n7 then ["N7"] else []) ++ (if n8 then ["N8"] else []) ++ (if flushed then ["N9"] else [])
+    if tags.isEmpty then "" else " kf=" ++ "+".intercalate tags
+  let termsOf (q : Bytes) : Option (List Spec.Storage.Term) :=
+    match (splitWords q).mapM Spec.Storage.termOf with
+    | some ts => if ts.any (·.refusable) then none else some ts
+    | none => none
+  -- queries
+  let mut j := 0
+  for q in qs do
+    let sqlS := match parseQuery q with
+      | .ok sqls => "/".intercalate (sqls.map fun (s : Sql) => (Bytes.ofString s.text).toHex) ++ "@" ++
+                    showHexList (sqls.flatMap Sql.args)
+      | .error e => errTag e
+    let dbR := dbQuery db q
+    let clR := if q.isEmpty then .error .missingOp else clientQuery db q
+    IO.println s!"obs {id} q{j} sql={sqlS} db={showResults recStr dbR} cl={showResults recStr clR}"
+    if !q.isEmpty then
+      let modelS := showResults (fun r => specRecOf (r.labels ++ r.nameL) r.content) clR
+      match termsOf q with
+      | some ts =>
+        let want := joinSorted ((allLines.filter (Spec.Storage.matchesAll ts)).map fun ln => specRecOf ln.labels ln.content)
+        IO.println s!"spec {id} q{j} res={want}{kfOf (want != modelS)}"
+      | none =>
+        -- outside the premise (malformed word, or a refusable term): error or nothing
+        let want := if modelS == "-" then "-" else "!err"
+        IO.println s!"spec {id} q{j} res={want}"
+    j := j + 1
+  -- listings
+  j := 0
+  for (q, limit) in ls do
+    let dbL := listUploads db q limit
+    let climit : Int := if limit == 0 then 1000 else limit
+    let clL := listUploads db q climit
+    IO.println s!"obs {id} l{j} db={showListing dbL} cl={showListing clL}"
+    let modelS := showListing clL
+    match termsOf q with
+    | some ts =>
+      let want := showRows (Spec.Storage.listing ts stored climit)
+      IO.println s!"spec {id} l{j} res={want}{kfOf (want != modelS)}"
+    | none =>
+      let want := if modelS == "-" then "-" else "!err"
+      IO.println s!"spec {id} l{j} res={want}"
+    j := j + 1
+
+def handleSW (l : Line) : IO Unit := do
+  let q := (l.bytes? "q").getD []
+  let add := (l.bytes? "add").getD []
+  let words := splitWords q
+  let atq := Analysis.Quote.addToQuery q add
+  let back := splitWords atq
+  IO.println s!"obs {l.id} words={showHexList words} atq={atq.toHex} back={showHexList back}"
+  -- the added word comes back as the first word; the old query's words follow, after a "|" if it had none
+  let hasBar := q.any (· == 124)
+  if add.isEmpty then
+    IO.println s!"spec {l.id} first={match back with | w :: _ => w.toHex | [] => "-"} n={(back.length : Int) - words.length}"
+  else
+    IO.println s!"spec {l.id} first={add.toHex} n={if hasBar then 1 else 2}"
+
+def handle (l : Line) : IO Unit := do
+  if l.kind != "case" then return
+  match l.getD "kind" with
+  | "hist" => handleHist l
+  | "sw" => handleSW l
+  | _ => pure ()
+
+end Driver.C19
+
+def main : IO Unit := do
+  let stdin ← IO.getStdin
+  Proto.forEachLine stdin fun s => Driver.C19.handle (Proto.parseLine s)
